@@ -44,8 +44,10 @@ TRUSTED_BASE = [
     'coq/Model/Uri.v parse_uri: hand transcription of DBConnection._parseURI (incl. the os.name == "nt" block, exercised by '
     'patching os.name in the harness); open_uri: scheme dispatch of connectionForURI for the sqlite scheme only (per-URI '
     'connection cache and instance names not modelled)',
-    'outside the model (answer RUnm, not compared, excluded from the theorems): netloc containing both [ and ] '
-    '(_check_bracketed_host needs ipaddress), non-ASCII netloc (_checknetloc needs NFKC; str.lower of non-ASCII); the '
+    'coq/Lib/UriPy.v valid_ipv4/valid_ipv6/check_bracketed: hand transcription of ipaddress.IPv4Address/IPv6Address string parsing '
+    'and of urllib.parse._check_bracketed_host (validated on every bracketed case, not verified)',
+    'outside the model (answer RUnm, not compared, excluded from the theorems): non-ASCII netloc (_checknetloc needs NFKC; '
+    'str.lower of non-ASCII); the '
     'correspondence checks that the model answers RUnm on exactly the cases the plugin flags by its own description of that class',
     'assumed: components are str or None, port is int or None (bool/float ports not modelled); the attributes user, password, '
     'host, port, db, dbName are set on the connection; python without -O (the assert in uri() is live)',
@@ -64,7 +66,8 @@ ALPHABET = list(RESERVED + UNRESERVED + HEXY + SPACE + OTHER) + NONASCII
 SURROGATES = ['\ud800', '\udfff']
 HOST_OK = list('hH0-._~ %!$&\'()*+,;=|"') + ['x', 'Y']
 HOST_BAD = list('/?#@:[]\t\r\n') + ['\u00e9', '\u2100', '\u0130']
-IPV6_HOSTS = ['::1', 'fe80::1', '2001:db8::8a2e:370:7334', '::ffff:1.2.3.4', '::', 'FE80::A']
+IPV6_HOSTS = ['::1', 'fe80::1', '2001:db8::8a2e:370:7334', '::ffff:1.2.3.4', '::', 'FE80::A', '1:2:3:4:5:6:7:8',
+              'abcd:ef01:2345:6789:ABCD:EF01:2345:6789', '1:2:3:4:5:6:1.2.3.4', '1::']
 PORTS = [None, None, 1, 80, 3306, 5432, 65535, 0, 65536, -1, -80, 70000, 10 ** 12, 'abc', '80', '']
 NAMES_OK = ['mysql', 'postgres', 'sqlite', 'http', 'MySQL', 'x+y-z.1', 'ftp', 'tel']
 NAMES_BAD = ['1sql', 'my sql', '', '\u00e9x', 'a_b', 'my\tsql']
@@ -220,6 +223,29 @@ def templated_parse(rng):
     return parse_case(uri, False, intent)
 
 
+IP6_VECTORS = ['::', '::1', '1::', '1::2', '1:2:3:4:5:6:7:8', '1:2:3:4:5:6:7::', '::2:3:4:5:6:7:8', '1:2:3:4:5:6:7:8:9',
+               '1:2:3:4:5:6:7', '1::2::3', ':1:2:3:4:5:6:7', '1:2:3:4:5:6:7:', ':::', '::::', '1:::2', '12345::', 'g::', '::G',
+               '::ffff:1.2.3.4', '::1.2.3.4', '1:2:3:4:5:6:1.2.3.4', '1:2:3:4:5:6:7:1.2.3.4', '::1.2.3', '::1.2.3.4.5',
+               '::01.2.3.4', '::0.0.0.0', '::256.1.1.1', '::1.2.3.', '::.1.2.3', '1.2.3.4', '::1.2.3.4:5', 'fe80::1%eth0',
+               'fe80::1%', 'fe80::1%a%b', 'FE80::A', 'abcd:ef01:2345:6789:abcd:ef01:2345:6789', '::/1', '', ':', '1', '1:2',
+               'v1.x', 'v.x', 'v1.', 'vg.x', 'v1x', 'V1.x', 'v1F.a:b', 'v1..', '1::2:3:4:5:6:7:8', '1:2:3:4::5:6:7:8',
+               '1:2:3::5:6:7:8', '::ffff:0:0', '0:0:0:0:0:0:0:0', '::00000', '::0000', '1:2:3:4:5:6:7:8%z']
+
+
+def bracket_parse(rng):
+    r = rng.random()
+    if r < 0.5:
+        h = rng.choice(IP6_VECTORS)
+        if rng.random() < 0.4:
+            h = mutate(rng, h) if h else h
+    else:
+        pieces = ['', '0', '1', 'f', 'A', 'ffff', '12345', 'g', ':', ':', ':', '::', '.', '1.2.3.4', '255', '256', '01', '%', 'v', 'v1.', '/']
+        h = ''.join(rng.choice(pieces) for _ in range(rng.randint(1, 10)))
+    pre = rng.choice(['', '', 'u@', 'u:p@', 'a[b@', 'x'])
+    post = rng.choice(['', '', ':80', ':', ':0', ':x', 'x', ']:1', ':80:90'])
+    return parse_case('mysql://%s[%s]%s/db' % (pre, h, post), False)
+
+
 def mutate(rng, uri):
     i = rng.randint(0, len(uri))
     r = rng.random()
@@ -261,7 +287,7 @@ def random_filename(rng):
 
 def corpus():
     return [
-        # witnesses of the open findings
+        # witnesses of the fixed findings (16d4528: ports, c19d57f: IPv6 host) and of the open ones
         build_case('mysql', 'u', 'p', 'h', 0, 'db'),                    # port_zero_not_rejected (builder side)
         parse_case('mysql://h:0/db', False, {'user': None, 'pw': None, 'host': 'h', 'ptxt': '0', 'path': '/db', 'pairs': []}),
         build_case('postgres', 'u', 'p', None, 5433, 'db'),             # port_without_host_dropped
@@ -288,6 +314,9 @@ def generate(rng, tier):
     out += tp
     for c in tp[:(15000 if big else 2000)]:
         out.append(parse_case(mutate(rng, c['uri']), rng.random() < 0.2))
+    out += [parse_case('mysql://[%s]:80/db' % h) for h in IP6_VECTORS]
+    out += [parse_case('mysql://u@[%s]/db' % h) for h in IP6_VECTORS]
+    out += [bracket_parse(rng) for _ in range(20000 if big else 3000)]
     for u in LITERAL_URIS:
         for _ in range(20 if big else 4):
             out.append(parse_case(mutate(rng, u), rng.random() < 0.3))
@@ -651,11 +680,7 @@ def oracle_build(c, o):
             return None
         finding = None
         if good_rest and parsed[3] is None and o['err'] is None:
-            if port == 0:
-                finding = 'port_zero_not_rejected'
-            elif port != '' and host_e is None:
-                finding = 'port_without_host_dropped'
-            elif port == '':
+            if port == '':
                 return None          # an empty port text is "no port"
         if parsed is not None and not good_rest:
             return fail('components (%r, %r, %r, %r, %r) come back from %r as %r' % (user_e, pw_e, host_e, port, path_e, o['uri'], parsed),
@@ -664,15 +689,11 @@ def oracle_build(c, o):
     if o['uri'] is None:
         return fail('uri() raised %s on valid components' % o['err'], got=o)
     if parsed is None:
-        return fail('the reported URI %r does not parse (%s)' % (o['uri'], o.get('perr')),
-                    'ipv6_host_not_bracketed' if (is_ipv6(host) and o.get('perr') == 'ValueError') else None, got=o)
+        return fail('the reported URI %r does not parse (%s)' % (o['uri'], o.get('perr')), got=o)
     if good_rest and parsed[3] == port:
         return None
-    finding = None
-    if good_rest and port is not None and parsed[3] is None and host_e is None:
-        finding = 'port_without_host_dropped'
     return fail('components (%r, %r, %r, %r, %r) come back from %r as %r' % (user_e, pw_e, host_e, port, path_e, o['uri'], parsed),
-                finding, got=o)
+                None, got=o)
 
 
 def oracle_parse(c, o):
@@ -691,10 +712,7 @@ def oracle_parse(c, o):
     if ptxt is not None and ptxt != '' and not (ptxt.isascii() and ptxt.isdigit() and 1 <= int(ptxt) <= 65535):
         if o.get('perr') == 'ValueError':
             return None
-        finding = None
-        if ptxt.isascii() and ptxt.isdigit() and int(ptxt) == 0 and rest == exp_rest and parsed[3] is None:
-            finding = 'port_zero_not_rejected'
-        return fail('port text %r is not rejected: %r parses to %r' % (ptxt, c['uri'], parsed), finding, got=o)
+        return fail('port text %r is not rejected: %r parses to %r' % (ptxt, c['uri'], parsed), None, got=o)
     if parsed is None:
         return fail('well-formed URI %r does not parse (%s)' % (c['uri'], o.get('perr')), got=o)
     port_e = int(ptxt) if ptxt else None
@@ -774,8 +792,14 @@ def oracle(c, o):
     return oracle_prims(c, o)
 
 
+OPEN_FINDINGS = ('params_not_in_uri', 'sqlite_root_memory_name')
+
+
 def classify(c, o, f):
-    return f.get('finding')
+    # port_zero_not_rejected, port_without_host_dropped (fixed: 16d4528) and ipv6_host_not_bracketed (fixed: c19d57f)
+    # are no longer excused: their witnesses stay in corpus() and a recurrence is a violation
+    fid = f.get('finding')
+    return fid if fid in OPEN_FINDINGS else None
 
 
 # ---------------------------------------------------------------- evidence helpers
@@ -813,8 +837,8 @@ C0_SPACE = ''.join(chr(i) for i in range(33))
 
 def uri_unmodelled(uri, sqlite_open=False):
     """The plugin's own description of the inputs the urllib model leaves out (answer RUnm): after urlsplit's
-    preprocessing the network location contains both '[' and ']' (ipaddress needed), or -- with no bracket at all --
-    a non-ASCII character (NFKC tables needed).  With sqlite_open, connectionForURI's dispatch is included: a scheme
+    preprocessing (and unless a bracket check raises first) the network location contains a non-ASCII character
+    (NFKC tables needed).  With sqlite_open, connectionForURI's dispatch is included: a scheme
     other than 'sqlite' is not modelled."""
     if sqlite_open:
         if ':' not in uri:
@@ -829,7 +853,13 @@ def uri_unmodelled(uri, sqlite_open=False):
         return False
     netloc = re.split(r'[/?#]', url[2:], maxsplit=1)[0]
     if '[' in netloc or ']' in netloc:
-        return '[' in netloc and ']' in netloc
+        if not ('[' in netloc and ']' in netloc):
+            return False                      # "Invalid IPv6 URL" comes first
+        from urllib.parse import _check_bracketed_host
+        try:
+            _check_bracketed_host(netloc.partition('[')[2].partition(']')[0])
+        except ValueError:
+            return False                      # the ValueError comes before _checknetloc
     return not netloc.isascii()
 
 
